@@ -456,18 +456,36 @@ struct Value {
             return;
         }
         type = T_DATA;
-        // they are now prefixed with a 0x00; rip that out
+        // the first byte says what kind of address this is (main net / test net): rip it out and wrap the hash accordingly
+        const uint8_t version = data[0];
         data.erase(data.begin());
-        // wrap in appropriate script fluff
         CScript s;
-        s << OP_DUP << OP_HASH160 << data << OP_EQUALVERIFY << OP_CHECKSIG;
+        if (version == 0x00 || version == 0x6f) {
+            // pay to public key hash
+            s << OP_DUP << OP_HASH160 << data << OP_EQUALVERIFY << OP_CHECKSIG;
+        } else if (version == 0x05 || version == 0xc4) {
+            // pay to script hash (BIP13)
+            s << OP_HASH160 << data << OP_EQUAL;
+        } else {
+            fprintf(stderr, "unknown address version %u (expected a pay-to-pubkey-hash or pay-to-script-hash address)\n", (unsigned)version);
+            data.clear();
+            return;
+        }
         data.clear();
         insert(data, s);
     }
     void do_spk_to_addr() {
-        // data should be OP_DUP OP_HASH160 0x14 <20 b hash> OP_EQUALVERIFY OP_CHECKSIG
+        // data should be OP_DUP OP_HASH160 0x14 <20 b hash> OP_EQUALVERIFY OP_CHECKSIG, or the pay-to-script-hash form
+        // OP_HASH160 0x14 <20 b hash> OP_EQUAL
+        if (data.size() == 23 && data[0] == OP_HASH160 && data[1] == 0x14 && data[22] == OP_EQUAL) {
+            data[1] = 0x05; // prefix (BIP13)
+            data.erase(data.begin());
+            data.resize(21);
+            do_base58chkenc();
+            return;
+        }
         if (data.size() != 25) {
-            fprintf(stderr, "wrong length (expected 25 bytes)\n");
+            fprintf(stderr, "wrong length (expected 25 bytes, or 23 for pay-to-script-hash)\n");
             return;
         }
         if (data[0] != OP_DUP ||
